@@ -465,4 +465,33 @@ def reachable_from(eff: Effects, roots: List[FuncInfo]) -> List[FuncInfo]:
         for g in m.funcs.values():
             if g.parent_func is f and g.qual not in seen:
                 st.append(g)
+        # functions named in a literal table that f reads (module level, or a class attribute read through self): a
+        # dispatch loop may call any of them
+        for g in _table_functions(m, f):
+            if g.qual not in seen:
+                st.append(g)
     return list(seen.values())
+
+
+def _table_functions(m: Model, f: FuncInfo) -> List[FuncInfo]:
+    out: List[FuncInfo] = []
+    if isinstance(f.node, ast.Lambda):
+        return out
+    for n in ast.walk(f.node):
+        lit = None
+        if isinstance(n, ast.Name) and isinstance(n.ctx, ast.Load) and n.id not in f.params:
+            lit = f.module.assigns.get(n.id)
+        elif isinstance(n, ast.Attribute) and isinstance(n.ctx, ast.Load) and isinstance(n.value, ast.Name) and f.cls is not None and f.pos_params and n.value.id == f.pos_params[0]:
+            lit = f.cls.class_assigns.get(n.attr)
+        if not isinstance(lit, (ast.Tuple, ast.List, ast.Dict)):
+            continue
+        for e in ast.walk(lit):
+            if isinstance(e, ast.Name) and isinstance(e.ctx, ast.Load):
+                t = m.lookup_target(m.resolve_dotted(f.module, None, e.id))
+                if isinstance(t, FuncInfo) and t not in out:
+                    out.append(t)
+            elif isinstance(e, ast.Constant) and isinstance(e.value, str) and f.cls is not None and e.value.isidentifier():
+                g = m.find_method(f.cls, e.value)
+                if g is not None and g not in out:
+                    out.append(g)
+    return out
